@@ -23,6 +23,16 @@ var solvers = []solverSpec{
 		return []string{"cvc5", "--strings-exp", fmt.Sprintf("--tlimit=%d", s*1000), f}
 	}},
 	{"z3", func(f string, s int) []string { return []string{"z3", fmt.Sprintf("-T:%d", s), f} }},
+	// portfolio variants for the obligations the default configurations do not decide quickly
+	{"z3-new/seed7", func(f string, s int) []string {
+		return []string{"z3-new", "smt.random_seed=7", "sat.random_seed=7", fmt.Sprintf("-T:%d", s), f}
+	}},
+	{"z3-new/ematching", func(f string, s int) []string {
+		return []string{"z3-new", "smt.mbqi=false", "smt.random_seed=3", fmt.Sprintf("-T:%d", s), f}
+	}},
+	{"z3/seed5", func(f string, s int) []string {
+		return []string{"z3", "smt.random_seed=5", fmt.Sprintf("-T:%d", s), f}
+	}},
 }
 
 type solveOut struct {
@@ -48,7 +58,15 @@ func runSolverCtx(parent context.Context, sp solverSpec, file string, secs int) 
 	_ = cmd.Run()
 	ms := time.Since(t0).Milliseconds()
 	text := out.String()
-	first := strings.TrimSpace(strings.SplitN(text, "\n", 2)[0])
+	first := ""
+	for _, ln := range strings.Split(text, "\n") {
+		ln = strings.TrimSpace(ln)
+		if ln == "" || strings.HasPrefix(ln, "WARNING") {
+			continue
+		}
+		first = ln
+		break
+	}
 	res := "error"
 	switch {
 	case first == "unsat":
@@ -106,6 +124,7 @@ func solveAll(w *World, obls []*Obligation, secs int, depth int, seed int, workD
 	prelude := ""
 	bodies := make([]string, len(obls))
 	qfBodies := make([]string, len(obls))
+	coneBodies := make([]string, len(obls))
 	fulls := make([][]string, len(obls))
 	for i, o := range obls {
 		func() {
@@ -133,6 +152,12 @@ func solveAll(w *World, obls []*Obligation, secs int, depth int, seed int, workD
 				}
 				qfBodies[i] = o.buildBody(w, dd, -1)
 				qfOnly = false
+				coneOnly = true
+				coneBodies[i] = o.buildBody(w, dd, -1)
+				coneOnly = false
+				if coneBodies[i] == bodies[i] {
+					coneBodies[i] = ""
+				}
 			}
 			for j := range o.Hyps {
 				fulls[i] = append(fulls[i], o.buildBody(w, depth, j))
@@ -181,21 +206,26 @@ func solveAll(w *World, obls []*Obligation, secs int, depth int, seed int, workD
 						o.Result, o.Solver, o.Ms, o.Model = "unsat", r1.solver+"(qf-subset)", r0.ms+r1.ms, r1.output
 						return
 					}
+					if coneBodies[i] != "" {
+						cf := filepath.Join(workDir, fmt.Sprintf("o%04d_cone.smt2", i))
+						_ = os.WriteFile(cf, []byte(prelude+coneBodies[i]), 0644)
+						r2 := solveScript(cf, 8, order, false)
+						if r2.result == "unsat" {
+							o.Result, o.Solver, o.Ms, o.Model = "unsat", r2.solver+"(cone-of-influence)", r0.ms+r1.ms+r2.ms, r2.output
+							return
+						}
+					}
 				}
 			}
 			first := secs
 			if (len(o.Splits) > 0 || o.MustFail) && first > 3 {
 				first = 3
 			}
-			ord := order
-			if o.MustFail {
-				ord = order[:1]
-			}
 			// most obligations are decided by the first solver in a moment; race all of them only for
 			// the ones it does not decide quickly
 			r := solveScript(file, 3, order[:1], false)
 			if r.result != "unsat" && r.result != "sat" && !o.MustFail {
-				r2 := solveScript(file, first, ord, false)
+				r2 := solveScript(file, first, []int{0, 1, 2, 3, 4, 5}, false)
 				r2.ms += r.ms
 				r = r2
 			}
